@@ -21,6 +21,7 @@ import (
 	"testing"
 
 	"golang.org/x/perf/benchfmt"
+	"golang.org/x/perf/benchproc"
 	sim "verif.local/sim"
 )
 
@@ -148,11 +149,26 @@ func fRun(t *testing.T, r *sim.Run, tier string) {
 		args = append(args, filepath.Join(fTmp, "missing.txt"))
 		r.Fault("input-file-missing")
 	}
-	// expected stream: what benchfmt.Files yields for these inputs
+	// the filter expression: everything, or one that drops whole results or single measurements (what is written is
+	// the stream of kept results with their kept measurements)
+	fexpr := []string{"*", "*", "*", ".unit:ns/op", "* -.unit:widgets", ".name:X OR .name:Z", "goos:linux", "* -note:1", ".unit:(B/op OR MB/s) -pkg:p/a", "/size:1 OR .name:Foo"}[T.Intn(10, "filter")]
+	r.Logf("filter %q", fexpr)
+	flt, ferr := benchproc.NewFilter(fexpr)
+	if ferr != nil {
+		r.Fail("harness", "filter", "%v", ferr)
+	}
+	// expected stream: what benchfmt.Files yields for these inputs, less what the filter drops
 	var want []*fRec
 	files := benchfmt.Files{Paths: args, AllowStdin: true, AllowLabels: true}
 	for files.Scan() {
-		if m := fModel(files.Result()); m != nil {
+		rec := files.Result()
+		if res, ok := rec.(*benchfmt.Result); ok {
+			if keep, _ := flt.Apply(res); !keep {
+				r.Hit("result dropped by the filter")
+				continue
+			}
+		}
+		if m := fModel(rec); m != nil {
 			want = append(want, m)
 		}
 	}
@@ -169,7 +185,7 @@ func fRun(t *testing.T, r *sim.Run, tier string) {
 		// log.Fatal ends the process: run the tool in a child (this test binary re-executed)
 		out.Close()
 		cmd := exec.Command(os.Args[0], "-test.run", "^TestVerifWorker$")
-		ab, _ := json.Marshal(append([]string{"benchfilter", "*"}, args...))
+		ab, _ := json.Marshal(append([]string{"benchfilter", fexpr}, args...))
 		cmd.Env = append(os.Environ(), "VERIF_BENCHFILTER_ARGS="+string(ab))
 		var stdout bytes.Buffer
 		cmd.Stdout = &stdout
@@ -201,7 +217,7 @@ func fRun(t *testing.T, r *sim.Run, tier string) {
 	}
 	oldArgs, oldStdout, oldStderr := os.Args, os.Stdout, os.Stderr
 	devnull, _ := os.OpenFile(os.DevNull, os.O_WRONLY, 0)
-	os.Args = append([]string{"benchfilter", "*"}, args...)
+	os.Args = append([]string{"benchfilter", fexpr}, args...)
 	os.Stdout, os.Stderr = out, devnull
 	flag.CommandLine = flag.NewFlagSet("benchfilter", flag.ExitOnError)
 	func() {
